@@ -3,6 +3,7 @@ package main
 import (
 	"fmt"
 	"go/ast"
+	"go/constant"
 	"go/token"
 	"go/types"
 	"strings"
@@ -15,6 +16,7 @@ import (
 // ---------------------------------------------------------------------------------------------
 
 type Env struct {
+	callArgs []Val // arguments of the call being asserted about (callsite clauses)
 	qdepth   int // > 0 inside a quantifier body: terms may mention bound variables and must not be hoisted into definitions
 	havocked map[string]bool // keys havocked by the contract call whose ensures is being assumed
 	tr    *Translator
@@ -257,7 +259,10 @@ func (e *Env) expr(x ast.Expr) Val {
 		case *types.Array:
 			idx := e.intIndex(n.Index)
 			if base.addr != nil {
-				a := &Addr{key: base.addr.key + "[]", idxs: append(append([]Sx{}, base.addr.idxs...), idx), typ: u.Elem()}
+				a := &Addr{key: base.addr.key + "[]", idxs: append(append([]Sx{}, base.addr.idxs...), idx), typ: u.Elem(), gl: base.addr.gl}
+				if _, nested := u.Elem().Underlying().(*types.Array); nested {
+					return Val{addr: a, typ: u.Elem(), gl: base.gl} // keep descending: load at the leaf only
+				}
 				return tr.load(e.st, a)
 			}
 			return Val{t: sx("select", base.t, idx), typ: u.Elem()}
@@ -325,10 +330,8 @@ func (e *Env) globalRead(ov *types.Var) Val {
 	key := "G:" + strings.TrimPrefix(strings.TrimPrefix(ov.Pkg().Path(), modPath+"/pkg/"), modPath+"/") + "." + ov.Name()
 	a := &Addr{key: key, typ: ov.Type()}
 	if _, isArr := ov.Type().Underlying().(*types.Array); isArr {
-		// keep as address so that indexing reads the right cell
-		v := tr.load(e.st, a)
-		v.addr = nil
-		return v
+		// keep the address: indexing then reads the same per-dimension heap keys as the code does
+		return Val{addr: a, typ: ov.Type(), gl: tr.l.globalByKey(key)}
 	}
 	return tr.load(e.st, a)
 }
@@ -764,6 +767,34 @@ func (e *Env) prelude(name string, n *ast.CallExpr, typeArgs []types.Type, rt ty
 			dom, _ := tr.mapKeys(mt)
 			return Val{t: sx("select", sx("select", tr.memGet(e.st, dom), m.t), k.t), typ: B}
 		}
+	case "preservedArrays":
+		// every backing array of element type T that existed at entry still has its entry contents
+		if len(typeArgs) == 1 {
+			key := "E:" + shortType(typeArgs[0])
+			if _, isStruct := typeArgs[0].Underlying().(*types.Struct); !isStruct {
+				tr.regKey(key, []Sx{"Int", it.isort()}, c.sortOf(typeArgs[0]))
+				cur, old := tr.memGet(e.st, key), tr.memGet(e.old, key)
+				if cur == old {
+					return Val{t: "true", typ: B}
+				}
+				c.fresh++
+				r := fmt.Sprintf("r!p%d", c.fresh)
+				return Val{t: fmt.Sprintf("(forall ((%s Int)) (=> (< %s %s) (= (select %s %s) (select %s %s))))", r, r, tr.allocTerm(e.old), cur, r, old, r), typ: B}
+			}
+		}
+	case "callArg":
+		if tv, ok := e.info.Types[n.Args[0]]; ok && tv.Value != nil {
+			if k, ok := constant.Int64Val(tv.Value); ok && int(k) < len(e.callArgs) {
+				v := e.callArgs[k]
+				if v.addr != nil {
+					if p := plainRef(v.addr); p != "" {
+						v = Val{t: p, typ: rt}
+					}
+				}
+				v.typ = rt
+				return v
+			}
+		}
 	case "ghostInt":
 		if lit, ok := n.Args[1].(*ast.BasicLit); ok {
 			key := "X:" + strings.Trim(lit.Value, `"`)
@@ -844,6 +875,49 @@ func (tr *Translator) contractEnv(ct *Contract, names []string, vals []Val, st, 
 		}
 	}
 	return &Env{tr: tr, vars: vars, st: st, old: old}
+}
+
+// nameEnv: identifiers visible just before instruction upto of block b (callsite clauses)
+func (f *Frame) nameEnv(b *ssa.BasicBlock, upto ssa.Instruction, st *State) *Env {
+	tr := f.tr
+	vars := map[string]Val{}
+	for _, p := range f.fn.Params {
+		vars[p.Name()] = f.vals[p]
+	}
+	var doms []*ssa.BasicBlock
+	for x := b; x != nil; x = x.Idom() {
+		doms = append([]*ssa.BasicBlock{x}, doms...)
+	}
+	for _, blk := range doms {
+		for _, in := range blk.Instrs {
+			if blk == b && in == upto {
+				break
+			}
+			switch x := in.(type) {
+			case *ssa.Phi:
+				if x.Comment != "" {
+					if v, ok := f.vals[x]; ok {
+						vars[x.Comment] = v
+					}
+				}
+			case *ssa.DebugRef:
+				id, ok := x.Expr.(*ast.Ident)
+				if !ok {
+					continue
+				}
+				if v, ok := f.vals[x.X]; ok {
+					if x.IsAddr {
+						vars[id.Name] = tr.load(st, tr.addrOf(v, x.X.Type()))
+					} else {
+						vars[id.Name] = v
+					}
+				} else if cv, ok := x.X.(*ssa.Const); ok {
+					vars[id.Name] = tr.constVal(cv.Type(), cv.Value)
+				}
+			}
+		}
+	}
+	return &Env{tr: tr, vars: vars, st: st, old: f.entry}
 }
 
 // loopEnv: identifiers visible in loop clauses of the top frame
